@@ -232,6 +232,35 @@ def queries(ph, with_thermal=True):
     return out
 
 
+def noise_queries(ph, rng, obs):
+    """Queries with unusual options whose answers are thrown away: they change no state, so later answers must not depend on them
+    (Phonopy keeps its group-velocity, mesh, band and DOS helper objects between calls - an option of one query must not leak into the next)."""
+    has_nac = ph.nac_params is not None
+    for _ in range(int(rng.integers(1, 4))):
+        k = int(rng.integers(7))
+        obs["noise_query_%d" % k] = obs.get("noise_query_%d" % k, 0) + 1
+        d = rng.standard_normal(3).tolist()
+        if k == 0:
+            ph.run_qpoints([[0, 0, 0], [0.5, 0.0, 0.0], [0.25, 0.25, 0.0]], nac_q_direction=d, with_group_velocities=True)
+        elif k == 1:
+            ph.run_qpoints([[0.1, 0.2, 0.3]], with_eigenvectors=True, with_group_velocities=True, nac_q_direction=d if has_nac else None)
+        elif k == 2:
+            ph.run_band_structure([np.array([[0, 0, 0], [0.25, 0, 0], [0.5, 0, 0]]), np.array([[0.5, 0, 0], [0.5, 0.25, 0], [0.5, 0.5, 0]])], with_group_velocities=True, is_band_connection=True)
+        elif k == 3:
+            ph.run_mesh([3, 3, 2], shift=[0.5, 0.5, 0.5], with_group_velocities=True, is_time_reversal=False)
+            ph.run_thermal_properties(t_min=0, t_max=100, t_step=50, cutoff_frequency=0.5)
+        elif k == 4:
+            ph.get_group_velocity_at_q([0.5, 0.5, 0.0])
+            ph.get_frequencies_with_eigenvectors([0.5, 0.0, 0.5])
+        elif k == 5:
+            ph.run_mesh([2, 2, 2], with_eigenvectors=True, is_mesh_symmetry=False)
+            ph.run_projected_dos(sigma=0.3, use_tetrahedron_method=False)
+            ph.run_thermal_displacements(t_min=0, t_max=100, t_step=100, freq_min=0.1, direction=[1, 0, 0])
+        else:
+            ph.run_qpoints([[0.5, 0.0, 0.0]], with_group_velocities=True, nac_q_direction=[1, 0, 0])
+            ph.run_band_structure([np.array([[0.0, 0, 0], [0.5, 0.5, 0.5]])], with_group_velocities=True)
+
+
 def fresh_from(w):
     """The executable reference: a new object from the final structure, force constants, NAC parameters and masses."""
     ph = w.ph
@@ -296,6 +325,9 @@ def run_case(c):
             obs["ops_applied"] = obs.get("ops_applied", 0) + len(h["ops"])
             obs["ops_raised"] = obs.get("ops_raised", 0) + sum(1 for e in w.log if e.get("outcome", "").startswith("raised"))
             try:
+                if (c["seed"] + hi) % 2 == 0:
+                    # (every second history: answers nobody keeps, asked with unusual options, between the last operation and the questions that count)
+                    noise_queries(w.ph, np.random.default_rng(c["seed"] + 31 * hi), obs)
                 got = queries(w.ph)
             except Exception as e:
                 bad("query_after_history_raised", "query after history %s raised %r" % (names, e), ops=names, init=h["init"])
